@@ -90,10 +90,12 @@ from apischema.utils import (
     CollectionOrPredicate,
     Lazy,
     as_predicate,
+    get_args2,
     get_origin_or_type,
     get_origin_or_type2,
     identity,
     is_union_of,
+    no_annotated,
     opt_or,
 )
 from apischema.visitor import Unsupported
@@ -124,9 +126,9 @@ def expected_class(tp: AnyType) -> type:
         return collections.abc.Mapping
     elif is_type_var(origin) or origin is Any:  # typing.Any is a class since 3.11
         return object
-    elif is_literal(tp):
+    elif is_literal(no_annotated(tp)):
         # isinstance accepts a tuple of classes
-        return tuple({v.__class__ for v in get_args(tp)})  # type: ignore
+        return tuple({v.__class__ for v in get_args2(tp)})  # type: ignore
     elif is_type(origin):
         return origin
     elif is_new_type(origin):
